@@ -49,7 +49,7 @@ mod cactus {
     pub use cactusref::{Rc, Weak};
     pub mod shim {
         use cactusref::{Adopt, Rc};
-        pub use cactusref::verif::{ACCESS, LINKS, LINKS_MOVED, TRACE_POP, TRACE_START, TRACE_VISIT, VALUE_MOVED};
+        pub use cactusref::verif::{ACCESS, GROUP, LINKS, LINKS_MOVED, TRACE_POP, TRACE_START, TRACE_VISIT, VALUE_MOVED};
         pub const IS_STD: bool = false;
         pub unsafe fn adopt<T>(a: &Rc<T>, b: &Rc<T>) {
             Rc::adopt_unchecked(a, b)
@@ -84,6 +84,7 @@ mod stdrc {
         pub const TRACE_START: u8 = 4;
         pub const TRACE_POP: u8 = 5;
         pub const TRACE_VISIT: u8 = 6;
+        pub const GROUP: u8 = 7;
         pub const IS_STD: bool = true;
         pub unsafe fn adopt<T>(_a: &Rc<T>, _b: &Rc<T>) {}
         pub unsafe fn unadopt<T>(_a: &Rc<T>, _b: &Rc<T>) {}
